@@ -1678,8 +1678,20 @@ write_gvar_data(Relocation *cur, Initializer *init, Type *ty, char *buf, int off
   if (ty->kind == TY_UNION) {
     if (!init->mem)
       return cur;
-    return write_gvar_data(cur, init->children[init->mem->idx],
-                           init->mem->ty, buf, offset);
+
+    // A bit-field member holds only the bits of its width.
+    Member *mem = init->mem;
+    if (mem->is_bitfield) {
+      Node *expr = init->children[mem->idx]->expr;
+      if (!expr)
+        return cur;
+      uint64_t val = eval(new_cast(expr, mem->ty));
+      uint64_t mask = (mem->bit_width == 64) ? ~0UL : (1UL << mem->bit_width) - 1;
+      write_buf(buf + offset + mem->offset, (val & mask) << mem->bit_offset, mem->ty->size);
+      return cur;
+    }
+
+    return write_gvar_data(cur, init->children[mem->idx], mem->ty, buf, offset);
   }
 
   if (!init->expr)
